@@ -306,6 +306,10 @@ func histories(r *lib.Run, rng *lib.Rand) (files []savedFile) {
 			special = "resubnet"
 		case 11:
 			special = "rediscover"
+		case 12:
+			// netfilter prefix WIDER than the home prefix: net2 is not inside net1 (Config.New checks the address only)
+			special = "nf-wider"
+			c = cfgT{nic: stdNIC, netfilter: netip.MustParsePrefix("192.168.0.129/16"), dns: ip("8.8.8.8")}
 		}
 		switch sel {
 		case 3:
@@ -318,7 +322,7 @@ func histories(r *lib.Run, rng *lib.Rand) (files []savedFile) {
 		var captured []net.HardwareAddr
 		isCaptured := map[string]bool{}
 		for i, m := range macUniv {
-			if (rng.Chance(30) && !short) || (special == "captured-outside-net2" && i == 0) {
+			if (rng.Chance(30) && !short) || ((special == "captured-outside-net2" || special == "nf-wider") && i == 0) {
 				captured = append(captured, m)
 				isCaptured[lib.Hex(m)] = true
 			}
@@ -429,6 +433,9 @@ func histories(r *lib.Run, rng *lib.Rand) (files []savedFile) {
 				}
 				if step == 0 && special == "captured-outside-net2" {
 					want = ip("192.168.0.12")
+				}
+				if step == 0 && special == "nf-wider" {
+					want = ip("192.168.5.5") // inside net2 (/16), outside the home LAN (/24)
 				}
 				// atomicity probe: a hard link to the lease file taken before the ACK keeps the old, complete
 				// content iff saveConfig replaces the file (temp + rename); an in-place rewrite (truncate +
@@ -555,6 +562,8 @@ func histories(r *lib.Run, rng *lib.Rand) (files []savedFile) {
 					switch {
 					case b.cid == "-":
 						key = "restart-drops-empty-clientid"
+					case !c.nic.home.Contains(a) && c.netfilter.Bits() < c.nic.home.Bits() && c.netfilter.Masked().Contains(a):
+						key = "restart-drops-net2-lease-outside-home"
 					case !c.nic.home.Contains(a):
 						key = "restart-drops-offsubnet-lease"
 					}
